@@ -86,6 +86,55 @@ def run_c05(ctx):
     run_events(ctx, "rand_stack", random_instr_cases(ctx, stack_instrs(reg), 20 if q else 600, ctx.seed))
 
 
+def points_of(t):
+    out = [t]
+    if t["k"] == "list":
+        for c in t["v"]:
+            out.extend(points_of(c))
+    return out
+
+
+def nested_tree(g, points, depth=0):
+    """plain trees that nest lists inside lists (so that indices behind nested siblings are exercised)"""
+    r = g.r
+    if points <= 1 or depth > 4:
+        k = r.random()
+        if k < 0.5: return {"k": "int", "v": r.randint(0, 9)}
+        if k < 0.7: return {"k": "id", "v": r.choice(["a", "b", "c"])}
+        if k < 0.85: return {"k": "ins", "v": r.choice(["NOOP", "INTEGER.+", "CODE.DUP"])}
+        if k < 0.93: return {"k": "bool", "v": r.random() < 0.5}
+        return {"k": "list", "v": []}
+    rest, kids = points - 1, []
+    while rest > 0:
+        k = r.randint(1, rest) if r.random() < 0.6 else 1
+        kids.append(nested_tree(g, k, depth + 1)); rest -= k
+    return {"k": "list", "v": kids}
+
+
+def code_point_cases(ctx, n):
+    """CODE list-surgery instructions on (tree, sub-item of that tree) pairs, so that searches really match"""
+    g = gen.Gen(ctx.seed + 17, ctx.registry, small_ints=True)
+    cases = []
+    for i in range(n):
+        t = nested_tree(g, g.r.randint(2, 16))
+        pts = points_of(t)
+        k = g.r.randrange(len(pts))
+        needle = pts[k] if g.r.random() < 0.85 else nested_tree(g, g.r.randint(1, 3))
+        repl = nested_tree(g, g.r.randint(1, 3))
+        for name, code, ints in (("CODE.POSITION", [t, needle], []), ("CODE.CONTAINER", [t, needle], []), ("CODE.CONTAINS", [t, needle], []),
+                                 ("CODE.MEMBER", [needle, t], []), ("CODE.SUBST", [t, repl, needle], []),
+                                 ("CODE.EXTRACT", [t], [g.r.choice([k, k, -k, k + len(pts), g.r.randint(-40, 40)])]),
+                                 ("CODE.INSERT", [t, repl], [g.r.choice([k, k, g.r.randint(0, len(pts) - 1)])]),
+                                 ("CODE.NTH", [t], [g.r.randint(-10, 20)]), ("CODE.DISCREPANCY", [t, needle if needle["k"] == "list" else repl], []),
+                                 ("CODE.SIZE", [t], []), ("CODE.CDR", [t], []), ("CODE.CAR", [t], []), ("CODE.CONS", [t, needle], []), ("CODE.=", [t, needle], [])):
+            s = gen.empty_state()
+            s["code"] = code + [{"k": "id", "v": "below"}]
+            s["int"] = ints + [777]
+            s["exec"] = [ins(name)]
+            cases.append({"id": "pt-%05d-%s" % (i, name), "pre": s, "acts": [{"a": "step"}]})
+    return cases
+
+
 def run_c08(ctx):
     q = ctx.tier == "quick"
     instrs = code_instrs(ctx.registry)
@@ -97,6 +146,19 @@ def run_c08(ctx):
     if not q:
         mc_stage(ctx, "code_subst_trees", three, dict(CodePool="trees", DCode=3, DInt=0))
     run_events(ctx, "rand_code", random_instr_cases(ctx, instrs, 30 if q else 1500, ctx.seed, small_ints=True))
+    run_events(ctx, "code_points", code_point_cases(ctx, 150 if q else 6000))
+    # the Item functions themselves (API level)
+    g = gen.Gen(ctx.seed + 19, ctx.registry, small_ints=True)
+    ops = []
+    for i in range(200 if q else 8000):
+        t = nested_tree(g, g.r.randint(1, 14)); pts = points_of(t); k = g.r.randrange(len(pts))
+        needle = pts[k] if g.r.random() < 0.8 else nested_tree(g, 2)
+        repl = nested_tree(g, g.r.randint(1, 3))
+        ops += [{"m": "size", "args": [t]}, {"m": "shallow_size", "args": [t]}, {"m": "traverse", "args": [t, g.r.choice([k, len(pts), len(pts) + 3])]},
+                {"m": "insert", "args": [t, repl, g.r.choice([k, k, len(pts) + 1])]}, {"m": "contains", "args": [t, needle]}, {"m": "container", "args": [t, needle]},
+                {"m": "substitute", "args": [t, needle, repl]}, {"m": "equals", "args": [t, needle]}, {"m": "shallow_eq", "args": [t, needle]}, {"m": "to_string", "args": [t]}]
+    cs = [{"id": "itemapi-%03d" % j, "api": "item", "ops": ops[j:j + 500]} for j in range(0, len(ops), 500)]
+    run_events(ctx, "item_api", cs, spec="TraceApi")
 
 
 def run_c09(ctx):
@@ -108,41 +170,44 @@ def run_c09(ctx):
     run_events(ctx, "rand_vector_wide", random_instr_cases(ctx, instrs, 10 if q else 300, ctx.seed + 7))
 
 
+def list_roundtrip_cases(ctx, n):
+    g = gen.Gen(ctx.seed + 3, ctx.registry, small_ints=True)
+    cases = []
+    for i in range(n):
+        s = g.state(depth=3)
+        ids = [g.r.choice([1, 2, 5, 6, 9, 10]) for _ in range(g.r.randint(1, 5))]
+        s["ivec"] = [ids] + s["ivec"]
+        s["exec"] = [{"k": "ins", "v": "LIST.ADD"}, {"k": "int", "v": 0}, {"k": "ins", "v": "LIST.GET"}]
+        cases.append({"id": "roundtrip-%05d" % i, "pre": s, "acts": [{"a": "steps", "k": 12}]})
+    return cases
+
+
 def run_c19(ctx):
     q = ctx.tier == "quick"
     mc_stage(ctx, "listrec", LISTREC, dict(CodePool="one", VecPool="ids", IntVals=[5], FloatVals=[F["one"]], NameVals=["a"], DInt=2, DFloat=1, DBool=1, DName=1, DCode=1, DExec=1, DVec=1 if q else 2))
     mc_stage(ctx, "listval", LISTVAL, dict(CodePool="recs", IntVals=[-1, 0, 1, 2, 5] if not q else [-1, 0, 1, 5], DInt=2, DCode=2 if q else 3))
     run_events(ctx, "rand_list", random_instr_cases(ctx, LISTREC + LISTVAL, 60 if q else 3000, ctx.seed, small_ints=True))
     # LIST.GET followed by execution of the pushed record: chains of steps validated one by one
-    g = gen.Gen(ctx.seed + 3, ctx.registry, small_ints=True)
-    cases = []
-    for i in range(100 if q else 3000):
-        s = g.state(depth=3)
-        ids = [g.r.choice([1, 2, 5, 6, 9, 10]) for _ in range(g.r.randint(1, 5))]
-        s["ivec"] = [ids] + s["ivec"]
-        s["exec"] = [{"k": "ins", "v": "LIST.ADD"}, {"k": "int", "v": 0}, {"k": "ins", "v": "LIST.GET"}]
-        cases.append({"id": "roundtrip-%05d" % i, "pre": s, "acts": [{"a": "steps", "k": 12}]})
-    run_events(ctx, "list_roundtrip", cases)
+    run_events(ctx, "list_roundtrip", list_roundtrip_cases(ctx, 100 if q else 3000))
 
 
 def run_c20_instr(ctx):
     q = ctx.tier == "quick"
-    mc_stage(ctx, "neighbor_ids", NEIGH[:1], dict(IntVals=[-1, 0, 1, 2, 3, 8, 9, 27] if not q else [-1, 0, 1, 2, 9], DInt=3,
+    mc_stage(ctx, "neighbor_ids", NEIGH[:1], dict(IntVals=[-1, 0, 1, 2, 3, 8, 9, 27, 64, 65, 70] if not q else [-1, 0, 1, 2, 9, 70], DInt=3,
                                                    FloatVals=[F["zero"], F["one"], F["x15"], F["three"], F["nan"], F["mone"], F["inf"], F["h"]] if not q else [F["one"], F["x15"], F["nan"]], DFloat=1))
-    mc_stage(ctx, "neighbor_vals", NEIGH[1:], dict(CodePool="recs", IntVals=[-1, 0, 1, 2, 9] if not q else [0, 1, 9], DInt=4,
+    mc_stage(ctx, "neighbor_vals", NEIGH[1:], dict(CodePool="recs", IntVals=[-1, 0, 1, 2, 9, 70] if not q else [0, 1, 9, 70], DInt=4,
                                                     FloatVals=[F["one"], F["x15"], F["nan"]] if not q else [F["x15"]], DFloat=1, DCode=1 if q else 2))
 
 
-def run_c17_instr(ctx):
-    q = ctx.tier == "quick"
-    mc_stage(ctx, "io", IO, dict(VecPool="small", IntVals=IDX8, DInt=1, DVec=2))
-    # INPUT / OUTPUT sequences over random message queues
+def io_sequence_cases(ctx, n):
+    """INPUT / OUTPUT instruction sequences over random message queues at rotated ring positions"""
     g = gen.Gen(ctx.seed + 11, ctx.registry, small_ints=True)
     cases = []
-    for i in range(60 if q else 3000):
+    for i in range(n):
         s = g.state(depth=2)
         s["input"] = [g.msg() for _ in range(g.r.randint(0, 10))]
         s["output"] = [g.msg() for _ in range(g.r.randint(0, 3))]
+        s["rot"] = {"input": g.r.randint(0, 25), "output": g.r.randint(0, 7), "graph": 0}
         prog = []
         for _ in range(g.r.randint(3, 14)):
             k = g.r.random()
@@ -156,18 +221,22 @@ def run_c17_instr(ctx):
                 prog.append({"k": "ivec", "v": [g.int() for _ in range(g.r.randint(0, 3))]})
         s["exec"] = prog
         cases.append({"id": "ioseq-%05d" % i, "pre": s, "acts": [{"a": "steps", "k": 20}]})
+    return cases
+
+
+def run_c17_instr(ctx):
+    q = ctx.tier == "quick"
+    mc_stage(ctx, "io", IO, dict(VecPool="small", IntVals=IDX8, DInt=1, DVec=2))
+    cases = io_sequence_cases(ctx, 60 if q else 3000)
     run_events(ctx, "io_sequences", cases)
 
 
-def run_c18_instr(ctx):
-    q = ctx.tier == "quick"
-    mc_stage(ctx, "graph", graph_instrs(ctx.registry), dict(IntVals=[-1, 0, 1, 2, 3, 10, 2147483647] if not q else [-1, 0, 1, 2, 3], FloatVals=[F["h"], F["nan"]] if not q else [F["h"]],
-                                                             VecPool="small", DInt=3, DFloat=1, DVec=1))
-    # random GRAPH.* programs: histories of graph instructions with valid, stale and bogus ids
+def graph_sequence_cases(ctx, n):
+    """random GRAPH.* programs: histories of graph instructions with valid, stale and bogus ids"""
     g = gen.Gen(ctx.seed + 5, ctx.registry, small_ints=True)
     gi = graph_instrs(ctx.registry)
     cases = []
-    for i in range(40 if q else 2000):
+    for i in range(n):
         s = gen.empty_state()
         s["nid"] = g.r.randint(1, 4)
         prog = [{"k": "ins", "v": "GRAPH.ADD"}]
@@ -185,6 +254,14 @@ def run_c18_instr(ctx):
                 prog.append({"k": "bvec", "v": g.bvec(3)})
         s["exec"] = prog
         cases.append({"id": "graphseq-%05d" % i, "pre": s, "acts": [{"a": "steps", "k": 40}]})
+    return cases
+
+
+def run_c18_instr(ctx):
+    q = ctx.tier == "quick"
+    mc_stage(ctx, "graph", graph_instrs(ctx.registry), dict(IntVals=[-1, 0, 1, 2, 3, 10, 2147483647] if not q else [-1, 0, 1, 2, 3], FloatVals=[F["h"], F["nan"]] if not q else [F["h"]],
+                                                             VecPool="small", DInt=3, DFloat=1, DVec=1))
+    cases = graph_sequence_cases(ctx, 40 if q else 2000)
     run_events(ctx, "graph_sequences", cases)
 
 
@@ -221,17 +298,21 @@ def random_loop_program(g, depth=0):
     return [ins("CODE.QUOTE"), body(), {"k": "int", "v": n}, ins("INDEX.DEFINE"), ins("CODE.LOOP")]
 
 
+def loop_program_cases(ctx, n):
+    g = gen.Gen(ctx.seed + 21, ctx.registry, small_ints=True)
+    cases = []
+    for i in range(n):
+        s = gen.empty_state()
+        s["exec"] = [lst(random_loop_program(g))]
+        cases.append({"id": "loops-%05d" % i, "pre": s, "acts": [{"a": "steps", "k": 3000}]})
+    return cases
+
+
 def run_c06(ctx):
     q = ctx.tier == "quick"
     mc_stage(ctx, "control", CONTROL, dict(CodePool="abc", IntVals=[-1, 0, 3], DInt=1, DBool=1, DCode=3 if not q else 2, DExec=3, VecPool="small", DVec=1, Interp=True))
     stages.behav_stage(ctx, "control", 4 if q else 9)
-    g = gen.Gen(ctx.seed + 21, ctx.registry, small_ints=True)
-    cases = []
-    for i in range(40 if q else 1500):
-        s = gen.empty_state()
-        s["exec"] = [lst(random_loop_program(g))]
-        cases.append({"id": "loops-%05d" % i, "pre": s, "acts": [{"a": "steps", "k": 3000}]})
-    run_events(ctx, "random_loops", cases)
+    run_events(ctx, "random_loops", loop_program_cases(ctx, 40 if q else 1500))
 
 
 def run_c07(ctx):
@@ -439,7 +520,9 @@ def run_c20(ctx):
     cs = []
     for i in range(100 if q else 5000):
         n = g.r.choice([g.r.randint(1, 200), g.r.randint(1, 2000), g.r.choice([8, 27, 64, 125, 216, 343, 512, 729, 1000, 1331, 16, 81, 256, 625, 1296])])
-        d = g.r.randint(1, 4)
+        d = g.r.choice([1, 2, 3, 4, 1, 2, 3, 4, 7, 20, 63, 64, 65, 66, 100])
+        if d > 4:
+            n = g.r.randint(1, 150)
         rad = g.r.choice([0.0, 0.5, 1.0, 1.2, 1.42, 1.5, 1.74, 2.0, 2.1, 3.0, 2.5, 4.5, -1.0, float("nan")])
         ops = [{"m": "find_neighbors", "args": [n, d, g.r.randint(0, n - 1), gen.f2b(rad)]}]
         cs.append({"id": "topo-%05d" % i, "api": "topo", "ops": ops})
@@ -749,7 +832,7 @@ def run_c14(ctx):
         raise pv.ToolError("pv-conc ids failed: " + r.stdout[-1000:])
     validate_file(ctx, "node_ids", ip, chunk=8)
     # (C3) the command-line front end against the library
-    bdir = os.path.join(pv.HARNESS, "target", "repo-bin")
+    bdir = os.path.join(pv._target_root(), "repo-bin")
     r = pv.run(["cargo", "build", "--offline", "--manifest-path", os.path.join(pv.REPO, "Cargo.toml"), "--bin", "pushr", "--target-dir", bdir])
     if r.returncode != 0:
         raise pv.ToolError("building the pushr binary failed:\n" + r.stdout[-2000:])
@@ -834,9 +917,9 @@ def all_instr_groups(ctx, small=True):
     groups = []
     many = set(LISTREC + NEIGH + ["GRAPH.NODE*STATESWITCH"])
     rest = [n for n in reg if n not in many]
-    groups.append(("all", rest, dict(IntVals=[0, 2] if small else [-2147483648, 0, 2, 2147483647], FloatVals=[F["one"]] if small else [F["one"], F["nan"]], NameVals=["a"],
-                                     CodePool="one" if small else "abc", VecPool="ids" if small else "small", DInt=3, DFloat=2 if small else 3, DBool=2, DName=2, DCode=3 if small else 2, DExec=3 if small else 2, DVec=2, Interp=True)))
-    groups.append(("many", sorted(many), dict(IntVals=[1], FloatVals=[F["one"]], NameVals=["a"], CodePool="one", VecPool="ids", DInt=4, DFloat=1, DBool=1, DName=1, DCode=1, DExec=1, DVec=1)))
+    groups.append(("all", rest, dict(IntVals=[0, 2] if small else [-2147483648, 0, 2, 2147483647], FloatVals=[F["one"], F["zero"]] if small else [F["one"], F["zero"], F["nan"]], NameVals=["a"],
+                                     CodePool="one" if small else "abc", VecPool="small", DInt=3, DFloat=2 if small else 3, DBool=2, DName=2, DCode=3 if small else 2, DExec=3 if small else 2, DVec=2, Interp=True)))
+    groups.append(("many", sorted(many), dict(IntVals=[1, 70], FloatVals=[F["one"]], NameVals=["a"], CodePool="one", VecPool="ids", DInt=4, DFloat=1, DBool=1, DName=1, DCode=1, DExec=1, DVec=1)))
     return groups
 
 
@@ -854,6 +937,10 @@ def run_c01(ctx):
         mc_stage(ctx, tag, instrs, pools)
     run_events(ctx, "rand_programs", random_program_cases(ctx, 150 if q else 10000, ctx.seed))
     run_events(ctx, "rand_instr", random_instr_cases(ctx, ctx.registry, 6 if q else 300, ctx.seed + 2))
+    # family-specific sequences (multi-step histories the uniform generator rarely produces)
+    seqs = io_sequence_cases(ctx, 60 if q else 3000) + graph_sequence_cases(ctx, 30 if q else 2000) + \
+        loop_program_cases(ctx, 20 if q else 1000) + list_roundtrip_cases(ctx, 40 if q else 2000)
+    run_events(ctx, "family_sequences", seqs)
     if not q:
         pv.build_harness("release")
         run_events(ctx, "rand_programs_release", random_program_cases(ctx, 3000, ctx.seed + 9), profile="release")
@@ -891,8 +978,20 @@ def write_replay(ctx, stage, v, kind, k):
     os.makedirs(os.path.join(pv.OUT, "replay"), exist_ok=True)
     e = pv.event_at(ctx.paths[stage], v["chunk"], v["l"])
     path = os.path.join(pv.OUT, "replay", "%s-%03d.json" % (ctx.pid, k))
-    rep = {"property": ctx.pid, "kind": kind, "stage": stage, "verdict": v["j"],
-           "case": {"id": e.get("id"), "pre": e.get("pre"), "acts": [e.get("act")]} if "api" not in e else e,
+    # the complete case the event belongs to (so that API histories and chains can be re-executed)
+    case, cid = None, e.get("id")
+    cp = os.path.join(ctx.work, stage + ".cases.ndjson")
+    if os.path.exists(cp):
+        for line in open(cp):
+            if '"%s"' % cid in line:
+                c = json.loads(line)
+                if c.get("id") == cid:
+                    case = c
+                    break
+    rep = {"property": ctx.pid, "kind": kind, "stage": stage, "verdict": v["j"], "event_index": e.get("i"),
+           "spec": "TraceApi" if (case or {}).get("api") or e.get("act", {}).get("a") in ("det", "ids", "cli") else "Trace",
+           "case": case, "rerun_stage": None if case else stage,
+           "event": {k2: e[k2] for k2 in e if k2 not in ("post",)} if not case else None,
            "observed": e.get("post"), "ret": e.get("ret"), "seed": ctx.seed, "tier": ctx.tier,
            "repo_head": pv.run(["git", "-C", pv.REPO, "rev-parse", "HEAD"]).stdout.strip()}
     json.dump(rep, open(path, "w"), indent=1)
@@ -929,22 +1028,28 @@ def finish(ctx, plan, viol, known, wall):
           "wall_s": round(wall, 1), "violations": len(viol)}
     if plan.get("rule"):
         ev["coverage"]["rule"] = plan["rule"]
-    os.makedirs(os.path.join(pv.VERIF, "evidence"), exist_ok=True)
-    json.dump(ev, open(os.path.join(pv.VERIF, "evidence", ctx.pid + ".json"), "w"), indent=1)
+    os.makedirs(pv.EVIDENCE_DIR, exist_ok=True)
+    json.dump(ev, open(os.path.join(pv.EVIDENCE_DIR, ctx.pid + ".json"), "w"), indent=1)
     print("%s %s: %d TLC states, %d events validated, %d violations, %d known-finding kinds, %.0fs" % (ctx.pid, ctx.tier, st["states"], st["events"], len(viol), len(known), wall))
     return 1 if viol else 0
 
 
 def replay(ctx, path):
     rep = json.load(open(path))
-    case = rep["case"]
     plan = PLANS[ctx.pid]
-    n = run_events(ctx, "replay", [case], spec=rep.get("spec", "Trace"))
+    if rep.get("case"):
+        n = run_events(ctx, "replay", [rep["case"]], spec=rep.get("spec", "Trace"),
+                       **({"env": {"PV_UNGUARDED": "1"}, "mem_kb": 1024 * 1024, "timeout_case": 6} if rep.get("stage") in ("cost_replay", "extreme_operands") else {}))
+    else:
+        # events produced by the thread / CLI drivers: the whole plan is re-run (seed and tier of the file)
+        ctx.seed, ctx.tier = rep.get("seed", ctx.seed), "quick"
+        plan["run"](ctx)
+        n = ctx.stats["events"]
     viol, known = stages.judge(ctx, **plan.get("judge", {}))
     for stage, v in ctx.verdicts:
-        print("verdict:", json.dumps(v["j"]))
+        print("verdict:", json.dumps(v["j"])[:600])
     if not ctx.verdicts:
         print("replay: every event accepted by the specification (%d events)" % n)
-    for stage, v, kind in viol:
+    for stage, v, kind in viol[:1]:
         print("VIOLATION property=%s replay=%s" % (ctx.pid, path))
     return 1 if viol else 0
